@@ -28,9 +28,9 @@ Proof. exact accept_iff. Qed.
 Print Assumptions C29_accept_iff_all_stages.
 
 (* No rejection is an internal error — provided element-type inference for untyped arrays never
-   fails ... *)
+   fails and no dictionary key of the argument is a composite (enum) value ... *)
 Theorem C29_reject_user_error_partial : forall E lcs T x,
-  (forall ts, lcs ts <> None) -> validate E lcs T x <> Reject RInternal.
+  (forall ts, lcs ts <> None) -> plain_keys x = true -> validate E lcs T x <> Reject RInternal.
 Proof. exact reject_user_error. Qed.
 Print Assumptions C29_reject_user_error_partial.
 
@@ -43,7 +43,20 @@ Theorem C29_reject_user_error_refuted :
 Proof. exact empty_array_internal. Qed.
 Print Assumptions C29_reject_user_error_refuted.
 
-(* Second finding: an array whose static element type is a fixed-size simple type and which wrongly
+(* ... nor the second (finding): dictionary keys are hashed when the dictionary is assembled, before any
+   conformance check; an enum key without rawValue, with a non-enum kind tag or with a container raw value
+   raises an internal error (a wrongly typed scalar raw value is properly rejected as malformed). *)
+Theorem C29_enum_key_internal_refuted :
+  validate E0 lcs0 (TDict (TComp 6) (TPrim PInt)) (en_key []) = Reject RInternal /\
+  validate E0 lcs0 (TDict (TComp 6) (TPrim PInt)) (XDict [(XComp KStruct 6 [(8%nat, XNum PUInt8 0)], XNum PInt 1)]) = Reject RInternal /\
+  validate E0 lcs0 (TDict (TComp 6) (TPrim PInt)) (en_key [(8%nat, XArray [XNum PUInt8 1])]) = Reject RInternal /\
+  validate E0 lcs0 (TDict (TComp 6) (TPrim PInt)) (en_key [(8%nat, XString [97])]) = Reject RMalformed /\
+  validate E0 lcs0 (TDict (TComp 6) (TPrim PInt)) (en_key [(8%nat, XNum PUInt16 1)]) = Reject RMalformed /\
+  (exists v, validate E0 lcs0 (TDict (TComp 6) (TPrim PInt)) (en_key [(8%nat, XNum PUInt8 1)]) = Accept v).
+Proof. exact enum_key_hash_internal. Qed.
+Print Assumptions C29_enum_key_internal_refuted.
+
+(* Third finding: an array whose static element type is a fixed-size simple type and which wrongly
    contains a container, nested in another container or a composite field, is rejected with atree's
    CopyError (a storage-layer error, unclassified in the VM) instead of an invalid-argument error. *)
 Theorem C29_reject_argument_error_refuted :
